@@ -103,6 +103,17 @@ def run (t : Tier) : Emit Unit := do
         emit "C06" (demuxCase (bytesOf dup) { view := .perpid, onlyPES := true } none (some expPES) "dup-every-position")
       else
         emit "C06" (demuxCase (bytesOf dup) { view := .perpid, onlyPES := true, noErr := true } none (some expPESnoErr) "dup-table-pid-position")
+    -- the duplicate need not be adjacent in the multiplex: it is the next packet OF ITS PID (packets of other PIDs in between)
+    for k in [0:ps.length] do
+      let p := ps.getD k default
+      if !isPESPid m p.header.pid then continue
+      match ((ps.drop (k + 1)).zipIdx.find? fun (q, _) => q.header.pid == p.header.pid) with
+      | some (_, off) =>
+        if off = 0 then continue
+        if t.quick && k % 2 = 1 then continue
+        let j := k + 1 + off
+        emit "C06" (demuxCase (bytesOf (ps.take j ++ [p] ++ ps.drop j)) { view := .perpid, onlyPES := true } none (some expPES) "dup-before-next-packet-of-pid")
+      | none => pure ()
     -- several duplicates in one stream: every packet of the PES PIDs sent twice, and random subsets
     let dupAll := (ps.map fun p => if isPESPid m p.header.pid then [p, p] else [p]).flatten
     emit "C06" (demuxCase (bytesOf dupAll) { view := .perpid, onlyPES := true } none (some expPES) "dup-every-pes-packet")
